@@ -71,7 +71,7 @@ Proof.
     + intros p. rewrite <- accum_fold_proof. reflexivity.
   - destruct k as [|[q|q|]]; cbv beta iota.
     + rewrite (counter_perm_proof h1 h2 G). apply obs_eqb_refl. unfold oC. cbn. exact I.
-    + rewrite (table_perm_proof 0%N h1 h2 G). apply obs_eqb_refl. exact I.
-    + rewrite (table_perm_proof 0%N h1 h2 G). apply obs_eqb_refl. exact I.
+    + rewrite (table_perm_proof [0%N] h1 h2 G). apply obs_eqb_refl. exact I.
+    + rewrite (table_perm_proof [0%N] h1 h2 G). apply obs_eqb_refl. exact I.
     + rewrite (subkey_perm_proof h1 h2 G). apply obs_eqb_refl. exact I.
 Qed.
